@@ -19,6 +19,9 @@ import EasyMl.Lemmas.FallibleRange
 import EasyMl.Lemmas.FallibleNamed
 import EasyMl.Lemmas.PartViews
 import EasyMl.Lemmas.FixConservative
+import EasyMl.Lemmas.FallibleSurface
+import EasyMl.Lemmas.MatrixViewEval
+import EasyMl.Lemmas.Numeric
 
 namespace EasyMl.C16
 open EasyMl EasyMl.Spec EasyMl.Fallible EasyMl.MatrixView
@@ -821,6 +824,147 @@ theorem dim_lookup_total (shape : Shape ν) (name : ν) :
 example : lengthOf [("c", 3), ("r", 2)] "r" = some 2 ∧ lastIndexOf [("c", 3), ("r", 2)] "c" = some 2 ∧
     lengthOf [("c", 3), ("r", 2)] "x" = none ∧ positionOf [("c", 3), ("r", 2)] "r" = some 1 := by
   refine ⟨by decide, by decide, by decide, by decide⟩
+
+/-! ## 13. The API-surface operations -/
+
+/-- **`record_get_ok_iff`** — `TensorAccess<_, RecordTensor (owned | & | &mut), D>::
+    try_get_as_record` (model `recordGet`; also RecordTensor's own `TensorRef`/`TensorMut` impl
+    read through the access): for every valid shape, every order that is a permutation of its
+    names and every index tuple of that arity, the call returns normally; the accessed shape
+    carries the names in the REQUESTED order, each with its own length; the answer is `Some`
+    exactly when the index is inside that ACCESSED shape; and its value is the tensor's own
+    answer at the index mapped back to the source order (so an index valid only in the source
+    order is `None`, one valid only in the accessed order is `Some`). -/
+theorem record_get_ok_iff [Inhabited ν] (shape : Shape ν) (hv : isValidShape shape = true)
+    (hb : elements shape ≤ usizeMax) (order : List ν) (hp : order.Perm (shape.map (·.1)))
+    (idx : List Nat) (hlen : idx.length = shape.length) :
+    ∃ t a m, tensorTryFrom Arith.fixed shape (elements shape) = .ok (.ok t) ∧
+      DimensionMappings.new shape order = some m ∧
+      accessTryFrom (TView.ofTensor t) order = .ok (.ok a) ∧
+      a.shape.map (·.1) = order ∧ (∀ d ∈ a.shape, d ∈ shape) ∧
+      ∃ r, recordGet shape order idx = .ok r ∧
+        r.isSome = Spec.inBounds (a.shape.map (·.2)) idx ∧
+        (TView.ofTensor t).get (m.sourceToRequested.map (idx.getD · 0)) = .ok r :=
+  recordGet_spec shape hv hb order hp idx hlen
+
+/-- Non-vacuity, the configuration of the seeded change C16-r6m2: shape `[c:3, r:2]` accessed as
+    `[r, c]` — index `[1, 2]` (valid only in the accessed order) is cell 5, index `[2, 1]`
+    (valid only in the source order) is absent. -/
+example : recordGet [("c", 3), ("r", 2)] ["r", "c"] [1, 2] = .ok (some 5) ∧
+    recordGet [("c", 3), ("r", 2)] ["r", "c"] [2, 1] = .ok none ∧
+    recordGet [("c", 3), ("r", 2)] ["c", "r"] [2, 1] = .ok (some 5) := by
+  refine ⟨by decide, by decide, by decide⟩
+
+/-- **`record_mget_ok_iff`** — `RecordMatrix::try_get_as_record(row, column)` (and its
+    `MatrixRef`/`MatrixMut` impl): `Some` exactly inside the matrix, the cell `column + row·columns`,
+    never a panic. -/
+theorem record_mget_ok_iff (rows columns i j : Nat) (hr : 1 ≤ rows) (hc : 1 ≤ columns)
+    (hb : rows * columns ≤ usizeMax) :
+    (MView.ofMatrix ⟨rows * columns, rows, columns⟩).get i j =
+      .ok (if i < rows ∧ j < columns then some (j + i * columns) else none) :=
+  MatrixMeta.get_eq ⟨rows * columns, rows, columns⟩ ⟨rfl, hr, hc, hb⟩ i j
+
+/-- **`from_usize_ok_iff`** (re-export of C19's model of `from_usize_integral!`): for each of the
+    twelve integer types, `FromUsize::from_usize(n)` is `Some` exactly when `n ≤ T::MAX`; the
+    thresholds are those of the correspondence table (`u64`, `usize`, `u128`, `i128` accept every
+    `usize`). -/
+theorem from_usize_ok_iff (t : Num.IntTy) (n : Nat) (hn : n ≤ usizeMax) :
+    ((Num.fromUsize t (BitVec.ofNat 64 n)).isSome = true ↔ (n : Int) ≤ t.maxInt) ∧
+    Num.IntTy.u8.maxInt = 255 ∧ Num.IntTy.i8.maxInt = 127 ∧ Num.IntTy.u16.maxInt = 65535 ∧
+    Num.IntTy.i16.maxInt = 32767 ∧ Num.IntTy.u32.maxInt = 4294967295 ∧
+    Num.IntTy.i32.maxInt = 2147483647 ∧ Num.IntTy.i64.maxInt = 9223372036854775807 ∧
+    Num.IntTy.isize.maxInt = 9223372036854775807 ∧
+    (usizeMax : Int) ≤ Num.IntTy.u64.maxInt ∧ (usizeMax : Int) ≤ Num.IntTy.usize.maxInt ∧
+    (usizeMax : Int) ≤ Num.IntTy.u128.maxInt ∧ (usizeMax : Int) ≤ Num.IntTy.i128.maxInt := by
+  have hn' : n < 2 ^ 64 := by
+    have : usizeMax = 2 ^ 64 - 1 := rfl
+    omega
+  refine ⟨Num.fromUsize_isSome_iff t n hn', by decide, by decide, by decide, by decide, by decide,
+    by decide, by decide, by decide, by decide, by decide, by decide, by decide⟩
+
+/-- **The named convenience methods** (`Tensor::{range, range_mut, range_owned, mask, mask_mut,
+    mask_owned}` and the same six of `TensorView`; the `@ named` cases): `Ok` exactly on the
+    arguments `validRangeFrom` / `validMaskFrom` accept, and then the view is total with the
+    shape obtained by clipping the table of the given ranges dimension by dimension. -/
+theorem named_methods_spec (src : TView ν) (hsrc : src.WF) (named : List (ν × IndexRange)) :
+    (IsOk (rangeFrom Arith.fixed src named) ↔ validRangeFrom src.shape named = true) ∧
+    (IsOk (maskFrom Arith.fixed src named) ↔ validMaskFrom src.shape named = true) ∧
+    (∀ v, rangeFrom Arith.fixed src named = .ok (.ok v) → v.WF ∧
+      v.shape = rangeShape src.shape (defaultRanges src.shape (namedTable src.shape named))) ∧
+    (∀ v, maskFrom Arith.fixed src named = .ok (.ok v) → v.WF ∧
+      v.shape = maskShape src.shape (defaultMasks (namedTable src.shape named))) := by
+  have h1 := rangeFrom_ok_iff src hsrc named
+  have h2 := maskFrom_ok_iff src hsrc named
+  refine ⟨h1, h2, ?_, ?_⟩
+  · intro v hv
+    have hvalid := h1.mp ⟨v, hv⟩
+    simp only [validRangeFrom, Bool.and_eq_true] at hvalid
+    rw [(named_eq_positional src hsrc named hvalid.1).1] at hv
+    rcases rangeFromAll_spec src hsrc _ (namedTable_length _ _) with ⟨w, hw, hwf, hshape, _⟩ | ⟨he, _⟩
+    · rw [hv] at hw
+      simp only [Outcome.ok.injEq, Except.ok.injEq] at hw
+      subst hw
+      exact ⟨hwf, hshape⟩
+    · rw [hv] at he; simp at he
+  · intro v hv
+    have hvalid := h2.mp ⟨v, hv⟩
+    simp only [validMaskFrom, Bool.and_eq_true] at hvalid
+    rw [(named_eq_positional src hsrc named hvalid.1).2.1] at hv
+    rcases maskFromAll_spec src hsrc _ (namedTable_length _ _) with ⟨w, hw, hwf, hshape, _⟩ | ⟨he, _⟩
+    · rw [hv] at hw
+      simp only [Outcome.ok.injEq, Except.ok.injEq] at hw
+      subst hw
+      exact ⟨hwf, hshape⟩
+    · rw [hv] at he; simp at he
+
+/-! ## 14. The fallible layer adds nothing beyond the view semantics -/
+
+/-- **One bridging lemma.**  A matrix view whose getter answers, for every index, the cell a
+    specification `cell` designates — `Some` exactly inside the size (`C12.mview_get_eq_spec`
+    with `C12.mview_get_some_iff`) — is total in C16's sense: the checked getters return
+    normally for every index and are `Some` exactly inside the size. -/
+theorem total_of_get_eq_spec (v : MView) (cell : Nat → Nat → Option Nat)
+    (hget : ∀ i j, v.get i j = .ok (cell i j))
+    (hsome : ∀ i j, (cell i j).isSome = true ↔ i < v.rows ∧ j < v.columns) : v.Total :=
+  fun i j => ⟨cell i j, hget i j, hsome i j⟩
+
+/-- **C16's totality of the matrix view getters as a corollary of C12's view semantics**: for
+    every composition of ranges, reversals, maps, tensor round trips and transpositions over a
+    matrix, a column-major source or a partition part, the view `MExpr.eval` builds is `MView.WF`
+    (sizes representable, getters total) — obtained from the specification theorems alone
+    (`eval_refines`, `cell_some`, `cell_none`, `size_le`), not from the adaptor-by-adaptor
+    totality proofs of section 5. -/
+theorem matrix_views_total_from_view_semantics (e : MExpr) (hle : e.LeavesOk)
+    (hb : e.Buildable = true) :
+    ∃ v, e.eval Arith.fixed = .ok (.ok v) ∧ v.view.WF := by
+  have h := eval_refines e hle
+  rw [if_pos hb] at h
+  obtain ⟨v, hv, hr, hc, hget, _⟩ := h
+  have hsz := e.size_le hle
+  refine ⟨v, hv, by rw [hr]; exact hsz.1, by rw [hc]; exact hsz.2, ?_⟩
+  apply total_of_get_eq_spec v.view e.cell hget
+  intro i j
+  rw [hr, hc]
+  constructor
+  · intro h
+    by_contra hn
+    rw [e.cell_none i j hn] at h
+    simp at h
+  · exact e.cell_some i j
+
+/-- The same bridge for tensor views: a getter that answers, for every index tuple of the view's
+    arity, the cell a specification designates — `Some` exactly inside the shape (the form of
+    C02's `view_get_eq_spec` / `view_get_some_iff_inBounds`) — is total in C16's sense. -/
+theorem tensor_total_of_get_eq_spec (v : TView ν) (cell : List Nat → Option Nat)
+    (hget : ∀ idx, idx.length = v.shape.length → v.get idx = .ok (cell idx))
+    (hsome : ∀ idx, idx.length = v.shape.length →
+      (cell idx).isSome = Spec.inBounds (v.shape.map (·.2)) idx) : v.Total :=
+  fun idx hlen => ⟨cell idx, hget idx hlen, hsome idx hlen⟩
+
+/-- Non-vacuity: a reversed clipped range over a part of a partition is such a composition. -/
+example : (MExpr.reverse (MExpr.range (MExpr.part 4 5 [1, 3] [2] 1 1) ⟨0, 2⟩ ⟨1, usizeMax⟩) true false).LeavesOk ∧
+    (MExpr.reverse (MExpr.range (MExpr.part 4 5 [1, 3] [2] 1 1) ⟨0, 2⟩ ⟨1, usizeMax⟩) true false).Buildable = true := by
+  refine ⟨by simp only [MExpr.LeavesOk, PartitionAccepted]; decide, by decide⟩
 
 
 end EasyMl.C16
